@@ -126,8 +126,8 @@ def gen_blocks(r, depth=0, plain=False, n=None, in_item=False):
                         it += [("list", sub_ordered, 1, True, [[("para", gen_inlines(r, 0, plain))] for _ in range(r.randint(1, 2))], r.choice([".", ")"]) if sub_ordered else r.choice(["-", "*", "+"]))]
                 else:
                     it = gen_blocks(r, depth + 1, plain, r.randint(1, 2), True)
-                    if it[0][0] in ("indented", "hr"):
-                        it.insert(0, ("para", gen_inlines(r, 0, plain)))
+                    if it[0][0] == "indented" or (it[0][0] == "hr" and r.random() < 0.5):
+                        it.insert(0, ("para", gen_inlines(r, 0, plain)))       # (half of the items that begin with a thematic break keep it first)
                     # a nested list is the last block of its item (known finding C04/blank-after-nested-list)
                     it = [x for x in it if x[0] != "list"] + [x for x in it if x[0] == "list"][:1]
                 items.append(it)
@@ -220,7 +220,12 @@ def print_blocks(bs, tight=False, in_item=False):
             # every spelling of a thematic break; the hyphen and underscore forms only after a blank line (a hyphen line below a
             # paragraph is a setext underline) and never as the first block of a container (after a bullet it would join the marker)
             styles = ["***", "---", "___", "* * *", "- - -", "-----", "_ _ _", "**  **"]
-            parts.append(styles[(len(parts) * 3 + len(bs) + len(parts[-1])) % len(styles)] if (parts and not tight) else "***")
+            if parts and not tight:
+                parts.append(styles[(len(parts) * 3 + len(bs) + len(parts[-1])) % len(styles)])
+            else:
+                # first in its container (possibly right behind a list marker): the star and underscore spellings only
+                _HR[0] += 1
+                parts.append(["***", "___", "_ _ _", "* * *", "_____"][_HR[0] % 5])
         elif t == "htmlblock":
             parts.append(b[1])
         elif t == "quote":
@@ -252,7 +257,11 @@ def print_blocks(bs, tight=False, in_item=False):
     return out
 
 
+_HR = [0]        # (the spelling of a thematic break that stands first in its container rotates within one document)
+
+
 def print_doc(bs):
+    _HR[0] = len(bs)
     return print_blocks(bs) + "\n"
 
 
